@@ -58,6 +58,11 @@ type respSpec struct {
 	ETag    string    `json:"etag,omitempty"`
 	ModTime time.Time `json:"modTime,omitempty"`
 	Abort   bool      `json:"abort,omitempty"`
+	// DropFirst: header names left out of the first N answers (an upstream whose
+	// answer becomes cacheable only later)
+	DropFirst      int      `json:"dropFirst,omitempty"`
+	DropFirstNames []string `json:"dropFirstNames,omitempty"`
+	served         int
 }
 
 type upLog struct {
@@ -266,8 +271,22 @@ func (u *upstreamSrv) handle(w http.ResponseWriter, r *http.Request) {
 		time.Sleep(time.Duration(spec.DelayMs) * time.Millisecond)
 	}
 	h := w.Header()
+	u.mu.Lock()
+	spec.served++
+	dropping := spec.served <= spec.DropFirst
+	u.mu.Unlock()
 	for _, kv := range spec.Headers {
-		h.Add(kv[0], kv[1])
+		skip := false
+		if dropping {
+			for _, n := range spec.DropFirstNames {
+				if http.CanonicalHeaderKey(n) == http.CanonicalHeaderKey(kv[0]) {
+					skip = true
+				}
+			}
+		}
+		if !skip {
+			h.Add(kv[0], kv[1])
+		}
 	}
 	if _, ok := h["Content-Type"]; !ok {
 		h["Content-Type"] = nil // no sniffing: the scripted answer has no Content-Type
